@@ -85,10 +85,64 @@ func c08Run(c *c02Case, synth *rig.Synth, steps int, stats *c02Stats) error {
 	return nil
 }
 
+// c08StackCell: one step whose stack traffic happens at the very bottom or top of the stack's address range - an
+// opcode that pushes or pulls, or the entry into an interrupt handler (Int 1 = IRQ, 2 = NMI), with the stack pointer at
+// 0-4 or $FFFC-$FFFF (and the page edges of emulation mode).
+type c08StackCell struct {
+	Impl string `json:"impl"`
+	E    bool   `json:"e"`
+	P    byte   `json:"p"`
+	SP   uint16 `json:"sp"`
+	Op   byte   `json:"op"`
+	Int  byte   `json:"int,omitempty"`
+}
+
+func c08StackCheck(c c08StackCell) error {
+	pri, alt := cpus()
+	var cpu rig.CPU = pri
+	if c.Impl == "cpualt" {
+		cpu = alt
+	}
+	mem := rig.NewMem(0xC08)
+	cpu.SetMem(mem)
+	a := wdc.Arch{A: 0x1234, X: 0x0011, Y: 0x0022, S: c.SP, D: 0x0000, PC: 0x1000, DBR: 0x7E, K: 0x01, P: c.P, E: c.E}
+	cpu.LoadRaw(rig.ArchToRaw(a))
+	for _, base := range []uint32{0x010000, 0x000000} {
+		mem.Poke(base|0x1000, c.Op)
+		mem.Poke(base|0x1001, 0x34)
+		mem.Poke(base|0x1002, 0x12)
+		mem.Poke(base|0x1003, 0x7F)
+		mem.Poke(base|0x2000, 0xEA)
+	}
+	for _, vec := range []uint32{0xFFE4, 0xFFE6, 0xFFEE, 0xFFEA, 0xFFF4, 0xFFFE, 0xFFFA} {
+		mem.Poke(vec, 0x00)
+		mem.Poke(vec+1, 0x20)
+	}
+	if c.Int == 1 {
+		cpu.TriggerIRQ()
+	} else if c.Int == 2 {
+		cpu.SetInterrupt(interruptNMI)
+	}
+	if _, _, p := cpu.Step(); p != nil {
+		return fmt.Errorf("%s opcode %02x (E=%v P=%02x, interrupt request %d) with S=$%04X: Step panicked: %v", c.Impl, c.Op, c.E, c.P, c.Int, c.SP, p)
+	}
+	if f := mem.BusFault(); f != "" {
+		return fmt.Errorf("%s opcode %02x (E=%v P=%02x, interrupt request %d) with S=$%04X %s", c.Impl, c.Op, c.E, c.P, c.Int, c.SP, f)
+	}
+	return nil
+}
+
 func c08Check(data []byte) error {
 	var rf rig.ReplayFile
 	if err := json.Unmarshal(data, &rf); err != nil {
 		return err
+	}
+	if rf.Kind == "stack-edge" {
+		var c c08StackCell
+		if err := json.Unmarshal(rf.Case, &c); err != nil {
+			return err
+		}
+		return c08StackCheck(c)
 	}
 	var probe map[string]json.RawMessage
 	_ = json.Unmarshal(rf.Case, &probe)
@@ -120,12 +174,41 @@ func c08Edge(cls string) bool {
 func TestC08(t *testing.T) {
 	rig.Main(t, "C08", "rapid programs pinned to the top of the address space (DBR=$FF half of the time, long operands and [dp] pointers within $FFFF of $FFFFFF, "+
 		"index sums solved to carry out of 24 bits, 16-bit data starting at $FFFFFF) on a fully mapped recording memory, both interpreters: phase native = lockstep with the "+
-		"WDC model (access must land at EA mod 2^24), phase any-mode (E=1 in half of the cases) = no panic and no bus address >= 2^24.  Non-trivial = a step whose solved effective "+
+		"WDC model (access must land at EA mod 2^24), phase any-mode (E=1 in half of the cases) = no panic and no bus address >= 2^24; plus every pushing/pulling opcode and both interrupt entries with the stack pointer at the ends of its range.  Non-trivial = a step whose solved effective "+
 		"address overflows 24 bits or whose datum straddles $FFFFFF/$000000; distinct = hash(state, seed, patches).",
 		func(r *rig.Run) {
 			ev := r.Ev
 			pri, alt := cpus()
 			var edgeSteps, steps, e1 int64
+			// stack traffic at the ends of the stack pointer's range: every pushing/pulling opcode and both interrupt entries
+			if rig.Shard() == 0 {
+				var n int64
+				ok := true
+				stackOps := []byte{0x00, 0x02, 0x08, 0x0B, 0x20, 0x22, 0x28, 0x2B, 0x40, 0x48, 0x4B, 0x5A, 0x60, 0x62, 0x68, 0x6B, 0x7A, 0x8B, 0xAB, 0xD4, 0xDA, 0xF4, 0xFA, 0xFC, 0xEA}
+				for _, impl := range []string{"cpu65c816", "cpualt"} {
+					for _, mode := range []struct {
+						e bool
+						p byte
+					}{{false, 0x00}, {false, 0x30}, {false, 0x04}, {true, 0x30}} {
+						for _, sp := range []uint16{0, 1, 2, 3, 4, 0xFF, 0x100, 0x101, 0x102, 0x1FE, 0x1FF, 0x200, 0xFFFC, 0xFFFD, 0xFFFE, 0xFFFF} {
+							for _, op := range stackOps {
+								for _, in := range []byte{0, 1, 2} {
+									if in != 0 && op != 0xEA {
+										continue
+									}
+									c := c08StackCell{Impl: impl, E: mode.e, P: mode.p, SP: sp, Op: op, Int: in}
+									n++
+									if ok && !r.CheckSweep("stack-edge", c, func() error { return c08StackCheck(c) }) {
+										ok = false
+									}
+								}
+							}
+						}
+					}
+				}
+				ev.Bulk(n, n)
+				ev.ClassN("stack-traffic-at-the-ends-of-the-stack-pointer's-range", n)
+			}
 			r.Rapid("native-lockstep", rig.Pick(50000, 250000), func(t *rapid.T) {
 				d := rig.RapidDrawer{T: t}
 				syn := rig.NewSynth(d, nil)
